@@ -10,3 +10,16 @@ func ZVToLowerCaseASCII(in string) string { return toLowerCaseASCII(in) }
 func ZVMatchHostnames(pattern, host string) bool { return matchHostnames(pattern, host) }
 
 func (c *Certificate) ZVHasSANExtension() bool { return c.hasSANExtension() }
+
+// ZVC09OIDs returns the current values of the extension identifiers that
+// hasSANExtension could name (the C09 T1 extractor reads the identifier actually
+// used from the source and looks its value up here).
+func ZVC09OIDs() map[string][]int {
+	return map[string][]int{
+		"oidExtensionSubjectAltName":   oidExtensionSubjectAltName,
+		"oidExtensionIssuerAltName":    oidExtensionIssuerAltName,
+		"oidExtensionKeyUsage":         oidExtensionKeyUsage,
+		"oidExtensionBasicConstraints": oidExtensionBasicConstraints,
+		"oidExtensionNameConstraints":  oidExtensionNameConstraints,
+	}
+}
